@@ -195,7 +195,7 @@ def is_shim_error(e):
     if tb and tb[-1].filename.endswith("coop.py") and not isinstance(e, (_real_queue.Empty, _real_queue.Full)):
         return True
     msg = str(e)
-    return isinstance(e, (AttributeError, TypeError)) and any(n in msg for n in ("CoQueue", "CoThread", "CoRLock", "CoLock", "CoEvent", "CoSemaphore", "CoSimpleQueue"))
+    return isinstance(e, (AttributeError, TypeError)) and any(n in msg for n in ("CoQueue", "CoThread", "CoRLock", "CoLock", "CoEvent", "CoSemaphore", "CoSimpleQueue", "CoCondition", "CoBarrier"))
 
 
 def controller():
@@ -454,6 +454,94 @@ class CoSemaphore:
         self.release()
 
 
+class CoCondition:
+    """threading.Condition over a cooperative (R)Lock: wait releases the lock completely, blocks until notified (virtually),
+    re-acquires.  A wait with a timeout that nobody notifies returns False after the other threads had 50 turns."""
+    def __init__(self, lock=None):
+        self._lock = lock if lock is not None else CoRLock()
+        self._tickets = []        # waiting tickets, oldest first
+        self._notified = set()
+        self._n = 0
+        self.acquire = self._lock.acquire
+        self.release = self._lock.release
+
+    def __enter__(self):
+        return self._lock.acquire()
+
+    def __exit__(self, *a):
+        self._lock.release()
+
+    def wait(self, timeout=None):
+        c = _CTRL
+        st = c.current if c else None
+        if st is None:
+            raise RuntimeError("uncontrolled code would block on a condition")
+        if self._lock.owner is not st:
+            raise RuntimeError("cannot wait on un-acquired lock")
+        saved = self._lock.count
+        self._lock.count = 1
+        self._n += 1
+        ticket = self._n
+        self._tickets.append(ticket)
+        self._lock.release()
+        if timeout is None:
+            c.block_until(lambda: ticket in self._notified, "condition.wait")
+            got = True
+        else:
+            for _ in range(50):
+                if ticket in self._notified:
+                    break
+                c.yield_point("cv-timed-wait")
+            got = ticket in self._notified
+            if not got and ticket in self._tickets:
+                self._tickets.remove(ticket)
+        self._notified.discard(ticket)
+        self._lock.acquire()
+        self._lock.count = saved
+        return got
+
+    def wait_for(self, predicate, timeout=None):
+        r = predicate()
+        while not r:
+            if not self.wait(timeout) and timeout is not None:
+                return predicate()
+            r = predicate()
+        return r
+
+    def notify(self, n=1):
+        for _ in range(n):
+            if not self._tickets:
+                break
+            self._notified.add(self._tickets.pop(0))
+        c = _CTRL
+        if c and c.current:
+            c.yield_point("cv-notify")
+
+    def notify_all(self):
+        self.notify(len(self._tickets))
+
+    notifyAll = notify_all
+
+
+class CoBarrier:
+    def __init__(self, parties, action=None, timeout=None):
+        self.parties, self._count, self._gen = parties, 0, 0
+
+    def wait(self, timeout=None):
+        c = _CTRL
+        gen = self._gen
+        self._count += 1
+        idx = self._count - 1
+        if self._count == self.parties:
+            self._count = 0
+            self._gen += 1
+            if c and c.current:
+                c.yield_point("barrier-release")
+        else:
+            c.block_until(lambda: self._gen != gen, "barrier.wait")
+        return idx
+
+
 class CoThread:
     """threading.Thread under the controller (also usable as a base class overriding run())"""
     def __init__(self, group=None, target=None, name=None, args=(), kwargs=None, *, daemon=None):
@@ -514,6 +602,8 @@ shim_threading.Thread = CoThread
 shim_threading.Event = CoEvent
 shim_threading.Semaphore = CoSemaphore
 shim_threading.BoundedSemaphore = CoSemaphore
+shim_threading.Condition = CoCondition
+shim_threading.Barrier = CoBarrier
 
 shim_queue = types.ModuleType("queue")
 shim_queue.__dict__.update({k: v for k, v in vars(_real_queue).items() if not k.startswith("__")})
